@@ -2,3 +2,4 @@
 From Coq Require Import List NArith Bool.
 From FS Require Import Sx Glue.C13G.
 Definition run_1501 (input impl : sx) : sx := C13G.run_1501 input impl.
+Definition run_1502 (input impl : sx) : sx := C13G.run_1502 input impl.
